@@ -66,6 +66,7 @@ type WorkerOut struct {
 	Findings           []Finding           `json:"findings"`
 	Troubles           []string            `json:"troubles"`
 	OtherProps         map[string]int      `json:"other_props"`
+	OtherExamples      map[string]string   `json:"other_examples,omitempty"` // first instance per rule: scenario, seed, detail
 	WallSec            float64             `json:"wall_sec"`
 	InProgress         uint64              `json:"in_progress_seed,omitempty"`
 	InProgressScenario string              `json:"in_progress_scenario,omitempty"`
@@ -247,7 +248,14 @@ func WorkerMain(t *testing.T, eng Engine) {
 		}
 		for _, v := range res.Violations {
 			if v.Property != job.Property {
-				out.OtherProps[v.Property+":"+v.Rule+":"+v.Class]++
+				key := v.Property + ":" + v.Rule + ":" + v.Class
+				out.OtherProps[key]++
+				if out.OtherExamples == nil {
+					out.OtherExamples = map[string]string{}
+				}
+				if _, ok := out.OtherExamples[key]; !ok && len(out.OtherExamples) < 20 {
+					out.OtherExamples[key] = fmt.Sprintf("scenario %s seed %d: %s", sc, seed, v.Detail)
+				}
 				continue
 			}
 			ck := v.Rule + "|" + v.Class
